@@ -125,7 +125,7 @@ PROPS = {
         "level": "exploration",
         "det_quick": 4,
         "exhaustive_note": (
-            "sweep part (plain enumeration, not simulation): declaration route {scalar, vector, slice, element, matrix row, column, transposed row, "
+            "sweep part (plain enumeration, not simulation): declaration route {scalar, vector, slice, element, VectorVariable.from_numpy (whole, reversed), matrix row, column, transposed row, "
             "sub-matrix row, transpose view, sub-matrix view, diagonal of a symmetric matrix, lower-triangle element} x domain {integer, binary} x "
             "{linear, quadratic} model x method (9 in quick, all 18 in thorough) x strict {True, False, True-after-relaxed}"
         ),
